@@ -43,16 +43,16 @@ theorem defDesc_tag_isSome (c : Bool) (d : Desc) :
     (defDesc sk n mn c d).attrs.tag.isSome = d.attrs.tag.isSome := by
   cases c <;> simp
 
-@[simp] theorem defDescs_length (g : List Desc) : (defDescs sk n mn g).length = g.length := by
+@[simp] theorem defDescs_length (c : Bool) (g : List Desc) : (defDescs sk n mn c g).length = g.length := by
   induction g with
   | nil => simp [defDescs]
   | cons d t ih => simp [defDescs, ih]
 
-theorem anyTaggedDescs_defDescs (g : List Desc) :
-    anyTaggedDescs (defDescs sk n mn g) = anyTaggedDescs g := by
+theorem anyTaggedDescs_defDescs (c : Bool) (g : List Desc) :
+    anyTaggedDescs (defDescs sk n mn c g) = anyTaggedDescs g := by
   induction g with
   | nil => simp [defDescs]
-  | cons d t ih => simp [defDescs, anyTaggedDescs, ih]
+  | cons d t ih => cases c <;> simp [defDescs, anyTaggedDescs, ih]
 
 theorem anyTagged_defItems (c : Bool) (l : List Item) :
     anyTagged (defItems sk n mn c l) = anyTagged l := by
@@ -107,15 +107,15 @@ mutual
     cases i with
     | marker => simp [defItem, extItem]
     | compOf r => simp [defItem, extItem]
-    | group g => simp only [defItem, extItem]; rw [extDescs_defDescs g]
+    | group g => simp only [defItem, extItem]; rw [extDescs_defDescs c g]
     | desc d => simp only [defItem, extItem]; rw [extDesc_defDesc c d]
-  theorem extDescs_defDescs (g : List Desc) :
-      extDescs (defDescs sk n mn g) = defDescs sk n mn (extDescs g) := by
+  theorem extDescs_defDescs (c : Bool) (g : List Desc) :
+      extDescs (defDescs sk n mn c g) = defDescs sk n mn c (extDescs g) := by
     cases g with
     | nil => simp [defDescs, extDescs]
     | cons d t =>
       simp only [defDescs, extDescs]
-      rw [extDesc_defDesc false d, extDescs_defDescs t]
+      rw [extDesc_defDesc c d, extDescs_defDescs c t]
 end
 
 /-! ### commutation with the tag pass (the two passes may even use different skeleton / module) -/
@@ -150,17 +150,17 @@ mutual
       | compOf r => simp only [defItems, defItem, tagItems]; rw [tagItems_defItems k c t]
       | group g =>
         simp only [defItems, defItem, tagItems, defDescs_length]
-        rw [tagDescs_defDescs k g, tagItems_defItems _ c t]
+        rw [tagDescs_defDescs k c g, tagItems_defItems _ c t]
       | desc d =>
         simp only [defItems, defItem, tagItems]
         rw [tagDesc_defDesc k c d, tagItems_defItems _ c t]
-  theorem tagDescs_defDescs (k : Option Nat) (g : List Desc) :
-      tagDescs sk mt mn' k (defDescs sk n mn g) = defDescs sk n mn (tagDescs sk mt mn' k g) := by
+  theorem tagDescs_defDescs (k : Option Nat) (c : Bool) (g : List Desc) :
+      tagDescs sk mt mn' k (defDescs sk n mn c g) = defDescs sk n mn c (tagDescs sk mt mn' k g) := by
     cases g with
     | nil => simp [defDescs, tagDescs]
     | cons d t =>
       simp only [defDescs, tagDescs]
-      rw [tagDesc_defDesc k false d, tagDescs_defDescs _ t]
+      rw [tagDesc_defDesc k c d, tagDescs_defDescs _ c t]
 end
 end
 
@@ -194,14 +194,14 @@ mutual
     cases i with
     | marker => simp [Item.All, defItem]
     | compOf r => simp [Item.All, defItem]
-    | group g => simp only [Item.All, defItem] at hi ⊢; exact DescsAll.dflt g hi
+    | group g => simp only [Item.All, defItem] at hi ⊢; exact DescsAll.dflt c g hi
     | desc d => simp only [Item.All, defItem] at hi ⊢; exact Desc.All.dflt c d hi
-  theorem DescsAll.dflt (l : List Desc) (hl : DescsAll P l) : DescsAll P (defDescs sk n mn l) := by
+  theorem DescsAll.dflt (c : Bool) (l : List Desc) (hl : DescsAll P l) : DescsAll P (defDescs sk n mn c l) := by
     cases l with
     | nil => simp [DescsAll, defDescs]
     | cons d t =>
       simp only [DescsAll, defDescs] at hl ⊢
-      exact ⟨Desc.All.dflt false d hl.1, DescsAll.dflt t hl.2⟩
+      exact ⟨Desc.All.dflt c d hl.1, DescsAll.dflt c t hl.2⟩
 end
 end
 
@@ -254,16 +254,16 @@ mutual
     cases i with
     | marker => simp [defItem]
     | compOf r => simp [defItem]
-    | group g => simp only [Item.All] at hi; simp only [defItem]; rw [defDescs_absorb g hi]
+    | group g => simp only [Item.All] at hi; simp only [defItem]; rw [defDescs_absorb c g hi]
     | desc d => simp only [Item.All] at hi; simp only [defItem]; rw [defDesc_absorb c d hi]
-  theorem defDescs_absorb (l : List Desc) (hl : DescsAll (Absorbs sk n mn m) l) :
-      defDescs sk n mn (defDescs sk m mn l) = defDescs sk n mn l := by
+  theorem defDescs_absorb (c : Bool) (l : List Desc) (hl : DescsAll (Absorbs sk n mn m) l) :
+      defDescs sk n mn c (defDescs sk m mn c l) = defDescs sk n mn c l := by
     cases l with
     | nil => simp [defDescs]
     | cons d t =>
       simp only [DescsAll] at hl
       simp only [defDescs]
-      rw [defDesc_absorb false d hl.1, defDescs_absorb t hl.2]
+      rw [defDesc_absorb c d hl.1, defDescs_absorb c t hl.2]
 end
 end
 
